@@ -49,6 +49,8 @@ Modes == {"default", "as_display", "as_display_inspect", "as_display_inspect_fal
           "as_value", "as_value_inspect", "as_value_inspect_false",
           "as_sval", "as_sval_inspect", "as_sval_inspect_false",
           "as_serde", "as_serde_inspect", "as_serde_inspect_false", "as_error", "err_key",
+          \* the other well-known keys with a capture of their own (macros/src/capture.rs default_fn_name)
+          "lvl_key", "trace_id_key", "span_id_key", "span_parent_key",
           "optional_default", "optional_as_value", "optional_as_sval", "optional_as_serde",
           "optional_as_debug"}
 OptionalModes == {"optional_default", "optional_as_value", "optional_as_sval",
@@ -58,8 +60,14 @@ OptionalModes == {"optional_default", "optional_as_value", "optional_as_sval",
 \* call site per (mode, type, wrap)).  "str" is a &str expression, "string" a String.
 Prim == {"int", "float", "bool", "str", "string"}          \* numbers, booleans, strings
 Structured == {"struct", "enum", "seq", "map", "bytes", "option_some", "option_none"}
-Classes == Prim \cup Structured \cup {"float32", "char", "error", "display_only", "debug_only",
+\* capture INPUT FORMS beyond a plain sized value: trait objects, references to references,
+\* a str where an error is expected, and the typed / borrowed / optional / textual forms the
+\* well-known keys accept
+InputForms == {"dyn_display", "dyn_debug", "ref_ref", "err_str", "wk_value", "wk_text", "wk_none"}
+WkModes == {"lvl_key", "trace_id_key", "span_id_key", "span_parent_key"}
+Classes == Prim \cup Structured \cup InputForms \cup {"float32", "char", "error", "display_only", "debug_only",
                                       "none_prim", "none_struct"}
+NoneClasses == {"none_prim", "none_struct", "wk_none"}
 
 \* captured as the primitive it is when inspected
 Inspected == {"int", "float", "float32", "bool", "char", "str", "string"}
@@ -102,6 +110,13 @@ ValidBase(m, b, c) ==
                                                        "as_serde_inspect"}
            [] c \in {"option_some", "option_none"} -> b \in {"as_value", "as_sval", "as_serde", "as_debug"}
            [] c = "error" -> b \in {"as_error", "err_key", "default", "as_display", "as_debug"}
+           [] c = "err_str" -> b \in {"as_error", "err_key"}
+           \* (a bare `&dyn Display` / `&dyn Debug` only compiles with `inspect: true`: the
+           \* un-inspected capture traits are implemented for sized types)
+           [] c = "dyn_display" -> b \in {"as_display_inspect"}
+           [] c = "dyn_debug" -> b \in {"as_debug_inspect"}
+           [] c = "ref_ref" -> b \in {"as_display", "as_debug", "as_value", "as_sval", "as_serde"}
+           [] c \in {"wk_value", "wk_text", "wk_none"} -> b \in WkModes
            [] c = "display_only" -> b \in {"default", "as_display", "as_display_inspect"}
            [] c = "debug_only" -> b \in {"as_debug", "as_debug_inspect"}
            [] OTHER -> FALSE
@@ -119,7 +134,7 @@ Sites == {s \in Modes \X Classes \X Wraps : Valid(s[1], s[2]) /\ ValidWrap(s[1],
 \* THE MEANING TABLE (level A: the statement)
 Meaning(m, c) ==
     LET b == Base(m) IN
-    IF c \in {"none_prim", "none_struct"} THEN {"absent"}       \* optional None: no property at all
+    IF c \in NoneClasses THEN {"absent"}       \* optional None / None under a well-known key: no property at all
     ELSE {"present"} \cup
         CASE b = "default" ->
                 \* numbers, booleans, strings pull back typed; anything else displays
@@ -127,12 +142,18 @@ Meaning(m, c) ==
           \* `inspect: true` asks for the value to be captured as the primitive it is; how a
           \* number / bool / char then formats is not promised (don't-care)
           [] b \in {"as_display_inspect", "as_debug_inspect"} /\ c \in Inspected -> {}
+          [] b = "as_display_inspect" /\ c = "dyn_display" -> {"display"}
+          [] b = "as_debug_inspect" /\ c = "dyn_debug" -> {"debug"}
           [] b \in {"as_display", "as_display_inspect"} -> {"display"}
           \* a &str is captured as the string it is under every mode (impl Capture* for str):
           \* its own text or its Debug text are both accepted; a String formats with Debug
           [] b \in {"as_debug", "as_debug_inspect"} -> IF c = "str" THEN {"debug_or_text"} ELSE {"debug"}
+          \* level / ids under their keys: whatever form they were given in, they pull back typed
+          [] b \in WkModes -> {"pull"}
+          \* a str where an error is expected is captured as the string it is
+          [] b \in {"as_error", "err_key"} /\ c = "err_str" -> {"pull", "text_stable"}
           [] b \in {"as_value", "as_value_inspect"} ->
-                CASE c \in Prim -> {"pull", "text_stable"}
+                CASE c \in Prim \cup {"ref_ref"} -> {"pull", "text_stable"}
                   [] c = "option_some" -> {"pull"}
                   [] c = "option_none" -> {"null"}
                   [] OTHER -> {}
@@ -245,7 +266,7 @@ TypedSurvivesBuffering ==
         => {"pull", "text_stable"} \subseteq comp
 StructureSurvivesBuffering ==
     Base(site[1]) \in {"as_sval", "as_sval_inspect", "as_serde", "as_serde_inspect"}
-        /\ site[2] \notin {"none_prim", "none_struct"} => "tree" \in comp
+        /\ site[2] \notin NoneClasses => "tree" \in comp
 DirectReadKeepsAll ==
     (\A i \in 1..Len(hist) : hist[i] \in {"ByRef", "Erase", "EraseEvent"}) => comp = Meaning(site[1], site[2])
 
